@@ -11,9 +11,12 @@ open PdModel.Syncer PdModel.HistoryBuf PdModel.Spec
 #print axioms full_sync_follower_eq_leader
 #print axioms full_sync_into_follower
 #print axioms incremental_sync_follower_eq_leader
+#print axioms broadcast_messages_exact
 #print axioms broadcast_follower_eq_leader
 #print axioms full_sync_unfixed_counterexample
 #print axioms history_sections_locked
 #print axioms C16.checkRecordsFrom_iff
 #print axioms C16.checkRestartLag_iff
 #print axioms C16.checkConverged_iff
+#print axioms C16.checkHeld_iff
+#print axioms C16.checkBroadcast_iff
